@@ -1,15 +1,32 @@
 /-
-  C18 (`fixed_point` build, table accuracy) — the sine table the fixed-point trigonometry uses, against
-  the real sine. EG/Props/C18/FixedTrig.lean proves the angular claim relative to the TABLE rays
-  `(cosT k, sinT k)`; this file says how far those are from the true directions of whole degrees:
-  every one of the 91 entries is the correctly rounded value of `65536 * sin (k degrees)`
-  (`fixed_sine_table_accurate`: deviation at most 1/2 unit of 2^-16, proved with `Real.sin` and π of
-  Mathlib by certified interval arithmetic, EG.Lemmas.SineTable), and so is the table sine `sinT k` of
-  EVERY integer degree `k` after the quadrant folding of `sin` (`fixed_sinT_accurate`). In pixels: a
-  table direction is within `0.5 / 65536` per component of the exact unit vector, i.e. `1e-3` px at
-  radius 64 — negligible against the whole-degree rounding (0.56 px) recorded in FixedTrig.lean.
+  C18 (`fixed_point` build against the EXACT geometry) — "Arc and sector points lie in the circle and
+  inside the swept angle up to 1.5 pixels at its radial boundaries, and every circle point further
+  than that inside the sweep is included (diameters up to 128), in both the floating-point and the
+  `fixed_point` build."
+
+  EG/Props/C18/FixedTrig.lean proves the angular claim relative to the TABLE rays. This file closes the
+  gap to the real sine and cosine (`Real.sin`, `Real.cos`, π of Mathlib; the only Props file that
+  imports Mathlib's analysis library, through EG.Lemmas.SineTable and EG.Lemmas.FixedTrigExact):
+
+  * every one of the 91 table entries is the correctly rounded value of `65536 sin (k degrees)`
+    (`fixed_sine_table_accurate`, deviation at most 1/2 unit of 2^-16, by certified interval
+    arithmetic), and so is the table sine / cosine of EVERY integer degree after the quadrant folding
+    (`fixed_sinT_accurate`, `fixed_cosT_accurate`);
+  * the whole degree `k` the code rounds a raw angle `a` to is within 0.0091 rad (0.5214 degrees) of
+    the exact angle `a / 65536` rad (`fixed_angle_error`);
+  * hence, for EVERY raw angle on which `with_angle` does not panic, the integer normal is within
+    10.32 (of 1024) of the exact `1024 (-sin, cos)` (`fixed_normal_exact`) — the hypothesis
+    `NormalWithin .. eps`, `eps <= 16`, of `sector_angular_partial`;
+  * hence the angular claim relative to the EXACT boundary lines of the two raw angles, tolerance
+    1.5 px, every raw angle pair, no hypothesis left (`fixed_sector_angular_exact`,
+    `fixed_sector_contains_exact`): a pixel of a circle of diameter up to 128 at least 1.5 px inside
+    both exact boundary lines is accepted, one more than 1.5 px outside is rejected. (The error bound
+    itself is `10.32 * (|dx| + |dy|) / 2048 <= 0.92 px`; the oracle measures 0.55 px.)
+
+  What remains outside: `Angle::from_degrees` (f32 -> raw bits) and the difference between boundary
+  LINES and boundary RAYS near the centre (the [V] lines of FixedTrig.lean); the default f32 build.
 -/
-import EG.Lemmas.SineTable
+import EG.Lemmas.FixedTrigExact
 import EG.Props.C18.FixedTrig
 namespace EG.C18
 open EG EG.Generated Real
@@ -25,78 +42,111 @@ theorem fixed_sine_table_accurate (k : Nat) (hk : k ≤ 90) :
   rfl
 example : sinTable[30]? = some 32768 ∧ sinTable[90]? = some 65536 ∧ sinTable[83]? = some 65048 := by decide
 
-theorem sinT_eq_table : ∀ k : Nat, k ≤ 90 → Fx.sinT (k : Int) = sinTable.getD k 0 := by decide +kernel
-
-/-- first quadrant -/
-theorem sinT_accurate_q1 (m : Int) (h0 : 0 ≤ m) (h1 : m ≤ 90) :
-    |(Fx.sinT m : ℝ) - 65536 * Real.sin ((m : ℝ) * π / 180)| ≤ 1 / 2 := by
-  have e : m = ((m.toNat : Nat) : Int) := (Int.toNat_of_nonneg h0).symm
-  have h := SineTable.sine_table_accurate m.toNat (by omega)
-  rw [← sinT_eq_table m.toNat (by omega), ← e] at h
-  have e2 : ((m.toNat : Nat) : ℝ) = (m : ℝ) := by
-    have : ((m.toNat : Nat) : Int) = m := Int.toNat_of_nonneg h0
-    exact_mod_cast this
-  rw [e2] at h
-  exact h
-
-/-- first and second quadrant: `sin (180° - x) = sin x` on both sides -/
-theorem sinT_accurate_half (m : Int) (h0 : 0 ≤ m) (h1 : m ≤ 180) :
-    |(Fx.sinT m : ℝ) - 65536 * Real.sin ((m : ℝ) * π / 180)| ≤ 1 / 2 := by
-  by_cases h : m ≤ 90
-  · exact sinT_accurate_q1 m h0 h
-  · have hq := sinT_accurate_q1 (180 - m) (by omega) (by omega)
-    have e1 : Fx.sinT (180 - m) = Fx.sinT m := (fixed_table_values.2 m).1
-    have e2 : Real.sin (((180 - m : Int) : ℝ) * π / 180) = Real.sin ((m : ℝ) * π / 180) := by
-      have : ((180 - m : Int) : ℝ) * π / 180 = π - (m : ℝ) * π / 180 := by push_cast; ring
-      rw [this, Real.sin_pi_sub]
-    rw [e1, e2] at hq
-    exact hq
-
-/-- one full turn: `sin (x + 180°) = -sin x` on both sides -/
-theorem sinT_accurate_turn (m : Int) (h0 : 0 ≤ m) (h1 : m < 360) :
-    |(Fx.sinT m : ℝ) - 65536 * Real.sin ((m : ℝ) * π / 180)| ≤ 1 / 2 := by
-  by_cases h : m ≤ 180
-  · exact sinT_accurate_half m h0 h
-  · have hq := sinT_accurate_half (m - 180) (by omega) (by omega)
-    have e1 : Fx.sinT m = -Fx.sinT (m - 180) := by
-      have := (fixed_table_values.2 (m - 180)).2.1
-      have e : m - 180 + 180 = m := by omega
-      rw [e] at this
-      exact this
-    have e2 : Real.sin ((m : ℝ) * π / 180) = -Real.sin (((m - 180 : Int) : ℝ) * π / 180) := by
-      have : (m : ℝ) * π / 180 = ((m - 180 : Int) : ℝ) * π / 180 + π := by push_cast; ring
-      rw [this, Real.sin_add_pi]
-    rw [e1, e2]
-    have : ((-Fx.sinT (m - 180) : Int) : ℝ) - 65536 * -Real.sin (((m - 180 : Int) : ℝ) * π / 180) =
-        -(((Fx.sinT (m - 180) : Int) : ℝ) - 65536 * Real.sin (((m - 180 : Int) : ℝ) * π / 180)) := by
-      push_cast; ring
-    rw [this, abs_neg]
-    exact hq
-
 /-- **The table sine of every integer degree** (what `sin` returns for any angle that rounds to `k`
 degrees, after `rem_euclid(360)` and the quadrant folding) **is the correctly rounded real sine.** -/
 theorem fixed_sinT_accurate (k : Int) :
-    |(Fx.sinT k : ℝ) - 65536 * Real.sin ((k : ℝ) * π / 180)| ≤ 1 / 2 := by
-  have h := sinT_accurate_turn (k % 360) (by omega) (by omega)
-  have e1 : Fx.sinT (k % 360) = Fx.sinT k := Fx.sinT_congr (by omega)
-  have e2 : Real.sin (((k % 360 : Int) : ℝ) * π / 180) = Real.sin ((k : ℝ) * π / 180) := by
-    have hk : k = k % 360 + 360 * (k / 360) := by omega
-    have : (k : ℝ) * π / 180 = ((k % 360 : Int) : ℝ) * π / 180 + ((k / 360 : Int) : ℝ) * (2 * π) := by
-      have hk' : (k : ℝ) = ((k % 360 : Int) : ℝ) + 360 * ((k / 360 : Int) : ℝ) := by exact_mod_cast hk
-      rw [hk']
-      ring
-    rw [this, Real.sin_add_int_mul_two_pi]
-  rw [e1, e2] at h
-  exact h
+    |(Fx.sinT k : ℝ) - 65536 * Real.sin ((k : ℝ) * π / 180)| ≤ 1 / 2 :=
+  Fx.sinT_accurate k
 
 /-- The table cosine likewise (`cosT k = sinT (k + 90)`, `cos x = sin (x + π/2)`). -/
 theorem fixed_cosT_accurate (k : Int) :
     |(Fx.cosT k : ℝ) - 65536 * Real.cos ((k : ℝ) * π / 180)| ≤ 1 / 2 := by
-  have h := fixed_sinT_accurate (k + 90)
+  have h := Fx.sinT_accurate (k + 90)
   have e : Real.sin (((k + 90 : Int) : ℝ) * π / 180) = Real.cos ((k : ℝ) * π / 180) := by
     have : ((k + 90 : Int) : ℝ) * π / 180 = (k : ℝ) * π / 180 + π / 2 := by push_cast; ring
     rw [this, Real.sin_add_pi_div_two]
   rw [e] at h
   exact h
+
+/-- **Whole-degree rounding against the exact angle.** The raw angle `a` is `a / 65536` radians; the
+degree `k` the code computes differs from it by at most 0.0091 rad = 0.5214 degrees (half a degree,
+the 2^-16 degree of the truncating division, and the code's `PI` = 205887 bits against π over the up
+to 29 turns for which `180 * a` does not overflow). -/
+theorem fixed_angle_error (a k : Int) (h : Fx.degreeOf a = some k) :
+    |(a : ℝ) / 65536 - (k : ℝ) * π / 180| ≤ 0.0091 := by
+  by_cases hf : Fx.DegFits a
+  · rw [Fx.degreeOf_eq a hf] at h
+    rw [← Option.some.inj h]
+    exact Fx.angle_error a hf
+  · rw [Fx.degreeOf_none a hf] at h; cases h
+example : Fx.degreeOf 34315 = some 30 := by decide
+
+/-- **The normal vector against the exact normal, every raw angle**: within 10.32 of 1024,
+componentwise, of `1024 (-sin t, cos t)`, `t = a / 65536` rad. -/
+theorem fixed_normal_exact (a : Int) (n : Pt) (h : Fx.withAngle a = some n) :
+    NormalWithin (K := ℝ) n (1024 * -Real.sin ((a : ℝ) / 65536), 1024 * Real.cos ((a : ℝ) / 65536)) 10.32 :=
+  Fx.withAngle_exact a n h
+example : Fx.withAngle 34315 = some ⟨-512, 886⟩ := by decide
+
+/-- **The angular claim of C18 for the fixed_point build, against the exact boundary lines.**
+`PlaneSector::new(start, sweep)` for ANY raw angles on which it does not panic, sweep below a full
+turn; `Fx.exactLineDist t delta` = the exact signed distance (scale 1024, half pixels: 1.5 px = 3072)
+of the pixel centre `delta` from the line through the centre at the exact angle `t` rad; the two
+boundary angles are the raw angles `/ 65536`. A pixel of a circle of diameter up to 128 at least
+1.5 px inside both exact boundary lines is accepted, one more than 1.5 px outside is rejected. -/
+theorem fixed_sector_angular_exact (start sweep : Int) (ps : PlaneSector)
+    (h : Fx.planeSectorNew start sweep = some ps) (hne : ps.op ≠ .entirePlane)
+    (delta : Pt) (hd : delta.x * delta.x + delta.y * delta.y < 128 * 128) :
+    (ps.op = .intersection →
+      (Fx.exactLineDist (((Fx.boundaryAngles start sweep).2 : ℝ) / 65536) delta ≤ -3072 ∧
+        3072 ≤ Fx.exactLineDist (((Fx.boundaryAngles start sweep).1 : ℝ) / 65536) delta →
+          ps.contains delta = true) ∧
+      (3072 < Fx.exactLineDist (((Fx.boundaryAngles start sweep).2 : ℝ) / 65536) delta ∨
+        Fx.exactLineDist (((Fx.boundaryAngles start sweep).1 : ℝ) / 65536) delta < -3072 →
+          ps.contains delta = false)) ∧
+    (ps.op = .union →
+      (Fx.exactLineDist (((Fx.boundaryAngles start sweep).2 : ℝ) / 65536) delta ≤ -3072 ∨
+        3072 ≤ Fx.exactLineDist (((Fx.boundaryAngles start sweep).1 : ℝ) / 65536) delta →
+          ps.contains delta = true) ∧
+      (3072 < Fx.exactLineDist (((Fx.boundaryAngles start sweep).2 : ℝ) / 65536) delta ∧
+        Fx.exactLineDist (((Fx.boundaryAngles start sweep).1 : ℝ) / 65536) delta < -3072 →
+          ps.contains delta = false)) :=
+  Fx.fixed_contains_exact start sweep ps h hne delta hd
+example : Fx.planeSectorNew 17158 51472 = some ⟨.intersection, ⟨-886, 512⟩, ⟨-265, 989⟩⟩ ∧
+    Fx.boundaryAngles 17158 51472 = (17158, 68630) ∧ ((40 : Int) * 40 + 37 * 37 < 128 * 128) := by decide
+
+/-- **Sector level**: `Sector::contains` of a sector of diameter up to 128 whose plane sector the
+fixed_point code computed, on a circle point `p`, against the exact boundary lines. -/
+theorem fixed_sector_contains_exact (tl : Pt) (d : Nat) (start sweep : Int) (ps : PlaneSector)
+    (h : Fx.planeSectorNew start sweep = some ps) (hne : ps.op ≠ .entirePlane) (hd : d ≤ 128)
+    (p : Pt) (hc : (⟨tl, d⟩ : Circle).contains p = true) :
+    (ps.op = .intersection →
+      (Fx.exactLineDist (((Fx.boundaryAngles start sweep).2 : ℝ) / 65536)
+          ((⟨p.x * 2, p.y * 2⟩ : Pt) - (⟨tl, d⟩ : Circle).center2x) ≤ -3072 ∧
+        3072 ≤ Fx.exactLineDist (((Fx.boundaryAngles start sweep).1 : ℝ) / 65536)
+          ((⟨p.x * 2, p.y * 2⟩ : Pt) - (⟨tl, d⟩ : Circle).center2x) →
+          (⟨tl, d, ps⟩ : Sector).contains p = true) ∧
+      (3072 < Fx.exactLineDist (((Fx.boundaryAngles start sweep).2 : ℝ) / 65536)
+          ((⟨p.x * 2, p.y * 2⟩ : Pt) - (⟨tl, d⟩ : Circle).center2x) ∨
+        Fx.exactLineDist (((Fx.boundaryAngles start sweep).1 : ℝ) / 65536)
+          ((⟨p.x * 2, p.y * 2⟩ : Pt) - (⟨tl, d⟩ : Circle).center2x) < -3072 →
+          (⟨tl, d, ps⟩ : Sector).contains p = false)) ∧
+    (ps.op = .union →
+      (Fx.exactLineDist (((Fx.boundaryAngles start sweep).2 : ℝ) / 65536)
+          ((⟨p.x * 2, p.y * 2⟩ : Pt) - (⟨tl, d⟩ : Circle).center2x) ≤ -3072 ∨
+        3072 ≤ Fx.exactLineDist (((Fx.boundaryAngles start sweep).1 : ℝ) / 65536)
+          ((⟨p.x * 2, p.y * 2⟩ : Pt) - (⟨tl, d⟩ : Circle).center2x) →
+          (⟨tl, d, ps⟩ : Sector).contains p = true) ∧
+      (3072 < Fx.exactLineDist (((Fx.boundaryAngles start sweep).2 : ℝ) / 65536)
+          ((⟨p.x * 2, p.y * 2⟩ : Pt) - (⟨tl, d⟩ : Circle).center2x) ∧
+        Fx.exactLineDist (((Fx.boundaryAngles start sweep).1 : ℝ) / 65536)
+          ((⟨p.x * 2, p.y * 2⟩ : Pt) - (⟨tl, d⟩ : Circle).center2x) < -3072 →
+          (⟨tl, d, ps⟩ : Sector).contains p = false)) := by
+  have hsmall := circle_delta_small ⟨tl, d⟩ hd p hc
+  obtain ⟨hi, hu⟩ := fixed_sector_angular_exact start sweep ps h hne _ hsmall
+  have key : ∀ b : Bool, ps.contains ((⟨p.x * 2, p.y * 2⟩ : Pt) - (⟨tl, d⟩ : Circle).center2x) = b →
+      (⟨tl, d, ps⟩ : Sector).contains p = b := by
+    intro b hb
+    have e := Sector.contains_eq (⟨tl, d, ps⟩ : Sector) p
+    have hc' : Circle.hit (⟨tl, d⟩ : Circle).center2x (⟨tl, d⟩ : Circle).threshold p.y p.x = true := by
+      rw [← Circle.contains_eq_hit]; exact hc
+    change (⟨tl, d, ps⟩ : Sector).contains p =
+      (Circle.hit (⟨tl, d⟩ : Circle).center2x (⟨tl, d⟩ : Circle).threshold p.y p.x &&
+        ps.contains ((⟨p.x * 2, p.y * 2⟩ : Pt) - (⟨tl, d⟩ : Circle).center2x)) at e
+    rw [e, hc', hb, Bool.true_and]
+  exact ⟨fun ho => ⟨fun hh => key _ ((hi ho).1 hh), fun hh => key _ ((hi ho).2 hh)⟩,
+    fun ho => ⟨fun hh => key _ ((hu ho).1 hh), fun hh => key _ ((hu ho).2 hh)⟩⟩
+example : Fx.planeSectorNew 17158 51472 = some ⟨.intersection, ⟨-886, 512⟩, ⟨-265, 989⟩⟩ ∧
+    (⟨⟨0, 0⟩, 100⟩ : Circle).contains ⟨70, 68⟩ = true := by decide
 
 end EG.C18
